@@ -22,6 +22,8 @@ Export == PrintT(<<"C", ToJson(c)>>)
 \* pre-agreed sizes used with the small universes: type t has length t, for t = 1, 2, 3
 OszSmall == (1 :> 1) @@ (2 :> 2) @@ (3 :> 3)
 OszNone == [t \in {} |-> 0]
+\* a size table with a pre-agreed size of 0 (a data-less marker type) next to non-zero sizes
+OszZero == (1 :> 1) @@ (6 :> 0) @@ (3 :> 3)
 
 \* ------------------------------------------------------------------ family pair
 Absent == [p |-> FALSE, d |-> <<>>]
@@ -67,6 +69,17 @@ InitPairExplicit ==
      p2 \in PairOpts(OptsOf({1}, Vals3)),
      p3 \in PairOpts(OptsOf({0, 1}, Vals3)) :
     c = MkPair(PKn, <<p1, p2, p3>>, OszNone)
+
+\* pre-agreed size 0 (two ids of the data-less type 6, so that an update of it is followed by
+\* another update, by an update of another type, or by the end of the delta), pre-agreed size 1,
+\* explicit sizes 0 and 1 (type 4) in one table
+PKz == << <<6, 3>>, <<6, 65535>>, <<1, 7>>, <<4, 0>> >>
+InitPairZero ==
+  \E p1 \in PairOpts(OptsOf({0}, {0})),
+     p2 \in PairOpts(OptsOf({0}, {0})),
+     p3 \in PairOpts(OptsOf({1}, {1, MIN})),
+     p4 \in PairOpts(OptsOf({0, 1}, {1})) :
+    c = MkPair(PKz, <<p1, p2, p3, p4>>, OszZero)
 
 SnapOfItems(its) == FoldLeft(LAMBDA f, it : (<<it.t, it.i>> :> it.d) @@ f, EmptySnap, its)
 OszOf(p) == FoldLeft(LAMBDA f, x : (x[1] :> x[2]) @@ f, EmptySnap, p)
@@ -160,6 +173,45 @@ RecycleLaw == LET SB == BAddAll(NewBuilder, c.adds)
                  /\ \A k \in rk : k \in DOMAIN T.b.raw /\ T.b.raw[k] = SS[k]   \* old numbers are kept
                  /\ LooksOf(T.b.raw) = [pr \in ProbeSet |-> ExpLookup(exp, pr[1], pr[2])]
 
+\* ------------------------------------------------------------------ family snaplimit (builder at the limits)
+\* The builder is filled so that r bytes (one filler item) or k items (empty filler items) of room
+\* are left, for every r around the cost of a registry item (24 bytes), an empty item (8) and a
+\* small item (12); then every short continuation of adds follows: a new UUID type, the same UUID
+\* type again, another new UUID type, an ordinal item. The spec's rule: a refused add leaves the
+\* builder unchanged (BAdd); a registered type whose item is refused stays registered.
+Filler(r, v) == << [ty |-> <<5>>, i |-> 0, d |-> [j \in 1..((65520 - r) \div 4) |-> IF v = 0 THEN 0 ELSE IF j % 2 = 0 THEN MAX - j ELSE MIN + j]] >>
+FillerItems(k) == [j \in 1..(1024 - k) |-> [ty |-> <<5>>, i |-> j - 1, d |-> <<>>]]
+LimOps == {[ty |-> U1, i |-> 0, d |-> <<>>], [ty |-> U1, i |-> 1, d |-> <<7>>], [ty |-> U2, i |-> 0, d |-> <<>>],
+           [ty |-> <<9>>, i |-> 0, d |-> <<>>]}
+LimAdds2 == << [ty |-> U1, i |-> 2, d |-> <<>>], [ty |-> U3, i |-> 0, d |-> <<1>>] >>
+LimProbes == ProbesOf({<<5>>, <<9>>, U1, U2, U3}, {0, 1})
+LimCaseC(fill, cont, copies) == [op |-> "snap", adds |-> fill \o cont, adds2 |-> LimAdds2, probe |-> LimProbes, copies |-> copies]
+LimCase(fill, cont) == LimCaseC(fill, cont, <<"built", "ints", "bytes">>)
+\* quick: the byte form is read back in the size cases (one copy keeps the 64 KiB events small), both
+\* forms in the item-count cases
+LimOps3 == LimOps \ {[ty |-> <<9>>, i |-> 0, d |-> <<>>]}
+InitSnapLimitQuick ==
+  \/ \E r \in {8, 16, 24, 32}, cont \in BoundedSeq(LimOps3, 2) : c = LimCaseC(Filler(r, 0), cont, <<"built", "bytes">>)
+  \/ \E cont \in {<< >>, << [ty |-> U1, i |-> 0, d |-> <<>>] >>} : c = LimCaseC(Filler(24, 1), cont, <<"built", "bytes">>)
+  \/ \E k \in {1, 2}, cont \in BoundedSeq(LimOps3, 2) : c = LimCase(FillerItems(k), cont)
+InitSnapLimitThorough ==
+  \/ \E r \in {0, 4, 8, 12, 16, 20, 24, 28, 32, 36, 40, 44, 56}, cont \in BoundedSeq(LimOps, 3) : c = LimCase(Filler(r, 0), cont)
+  \/ \E r \in {0, 20, 24, 3280}, cont \in BoundedSeq(LimOps, 1) : c = LimCase(Filler(r, 1), cont)
+  \/ \E k \in {0, 1, 2, 3, 4}, cont \in BoundedSeq(LimOps, 3) : c = LimCase(FillerItems(k), cont)
+\* on the model: the registry stays well-formed, the limits hold, the view is what was accepted, refused
+\* adds are errors of the limit kind, the integer form is read back equal
+LimitLaw == LET SB == BAddAll(NewBuilder, c.adds)
+                SS == SB.b.raw
+                q == CheckRegistry(SS)
+                p == ParseInts(WireInts(SS))
+            IN /\ q.ok /\ WithinLimits(SS)
+               /\ SameSnap(View(SS), Expected(c.adds, SB.outs))
+               /\ \A j \in 1..Len(c.adds) : SB.outs[j] \in {"ok", "DuplicateKey", "TooLongSnap", "TooManyItems"}
+               /\ \E j \in 1..Len(c.adds) : TRUE
+               /\ DOMAIN Reg(SS) = DOMAIN SB.b.reg /\ SB.b.cnt = Cardinality(DOMAIN SS) /\ SB.b.ints = NumInts(SS)
+               /\ p.ok /\ SameSnap(p.s, SS)
+               /\ CheckRegistry(BAddAll(Recycle(SS), c.adds2).b.raw).ok
+
 \* ------------------------------------------------------------------ family corrupt
 Boundary == {-1, 0, 1, 2, 3, 4, 5, 8, 12, 16383, 16384, 32767, 32768, 65535, 65536, 1024, MIN, MAX}
 ByteVals == {0, 64, 128, 255}
@@ -191,10 +243,13 @@ InitCorruptSnap ==
 \* base deltas: (from, to, sizes)
 CD1 == [a |-> CS2, b |-> (<<1, 0>> :> <<6>>) @@ (<<4, 2>> :> <<MIN, 0>>) @@ (<<7, 7>> :> <<1, 2, 3>>) @@ (<<0, 32769>> :> U1), osz |-> OszSmall]
 CD2 == [a |-> CS3, b |-> (<<2, 1>> :> <<3, 5>>) @@ (<<3, 0>> :> <<0, 0, 1>>) @@ (<<9, 9>> :> <<>>), osz |-> OszSmall]
+CD4 == [a |-> (<<6, 1>> :> <<>>) @@ (<<1, 0>> :> <<5>>),
+        b |-> (<<6, 1>> :> <<>>) @@ (<<6, 2>> :> <<>>) @@ (<<1, 0>> :> <<6>>) @@ (<<9, 9>> :> <<>>) @@ (<<3, 3>> :> <<1, 2, 3>>),
+        osz |-> OszZero]
 CD3 == [a |-> CS1, b |-> CS1 @@ (<<0, 16386>> :> U3) @@ (<<16386, 1>> :> <<1>>), osz |-> OszNone]
 ParseDeltaCase(kind, w, x) == [op |-> "parse", kind |-> kind, w |-> w, adds2 |-> CAdds2, base |-> WireInts(x.a), osz |-> OszPairs(x.osz)]
 InitCorruptDelta ==
-  \E x \in {CD1, CD2, CD3} :
+  \E x \in {CD1, CD2, CD3, CD4} :
     LET w0 == DeltaWire(Delta(x.a, x.b), x.osz) IN
     \/ \E w \in Corruptions(w0) : c = ParseDeltaCase("di", w, x)
     \/ \E b \in ByteCorruptions(EncodeAll(w0)) : c = ParseDeltaCase("db", b, x)
@@ -252,6 +307,11 @@ RegistryLaw == IF c.kind = "di" THEN TotalDeltaLaw ELSE TotalSnapLaw
 BigSnap(ty, n, ints) ==
   LET base == ints \div n  extra == ints % n
   IN [k \in {<<ty, id>> : id \in 0..(n - 1)} |-> [j \in 1..(base + (IF k[2] < extra THEN 1 ELSE 0)) |-> k[2] + j]]
+\* the same with values of large magnitude (five bytes each in the byte form: a legal snapshot is
+\* then up to 5/4 * 64 KiB long as bytes)
+BigSnapV(ty, n, ints) ==
+  LET S == BigSnap(ty, n, ints)
+  IN [k \in DOMAIN S |-> [j \in 1..Len(S[k]) |-> IF j % 2 = 0 THEN MAX - j ELSE MIN + j]]
 \* 2 * n + ints <= 16382 is the size limit
 BigSnapCases ==
   {[n |-> 1, ints |-> 16379], [n |-> 1, ints |-> 16380], [n |-> 1, ints |-> 16381],
@@ -259,9 +319,10 @@ BigSnapCases ==
    [n |-> 1025, ints |-> 0], [n |-> 1024, ints |-> 0], [n |-> 1025, ints |-> 1025], [n |-> 2000, ints |-> 0]}
 \* limits are only reachable by parsing (the builder refuses): the wire form is written by the spec
 RawWire(S) == WireInts(S)
+BigValueCases == {[n |-> 1, ints |-> 13100], [n |-> 1, ints |-> 13110], [n |-> 1, ints |-> 16380], [n |-> 900, ints |-> 14000]}
 InitBigSnap ==
-  \E x \in BigSnapCases :
-    LET w == RawWire(BigSnap(6, x.n, x.ints)) IN
+  \E w \in {RawWire(BigSnap(6, x.n, x.ints)) : x \in BigSnapCases} \cup
+            {RawWire(BigSnapV(6, x.n, x.ints)) : x \in BigValueCases} :
     \/ c = [op |-> "parse", kind |-> "si", w |-> w, adds2 |-> CAdds2, other |-> COther]
     \/ c = [op |-> "parse", kind |-> "sb", w |-> EncodeAll(w), adds2 |-> CAdds2, other |-> COther]
 \* deltas that push a snapshot at the limits over them (one more item / one more integer), exactly
